@@ -38,7 +38,8 @@ def corpus():
          'npK', 'cnpK', 'SpKnpK', 'SpKcnpK', 'SnpK', 'SpknpK', 'nnpK',   # ... from a foreign thread that runs its own event loop
          'EpSpK', 'gepSpK',       # empty producers: no call, later ones still delivered
          'DpKDpK']                # same value again after it was delivered: delivered again
-    return [c for c in (B.letters_case(T, w) for T in (8, 100) for w in W) if c]
+    return ([c for c in (B.letters_case(T, w) for T in (8, 100) for w in W) if c]
+            + [B.burst_case(1100, 'D')])      # 1100 plain submissions in ONE loop pass: all of them delivered
 
 
 def gen_exhaustive(tier, seed):
@@ -46,6 +47,9 @@ def gen_exhaustive(tier, seed):
     out += B.foreign_cases(maxlen=3 if tier == 'quick' else 4, puts='un')
     # unusual argument VALUES (None, 0, False, 0.0, '', (), b'', frozenset()) in every producer kind
     out += B.value_cases(8) + (B.value_cases(100) if tier != 'quick' else [])
+    out += [B.burst_case(n, 'D', T) for T in (8, 100) for n in (2, 65, 257)]
+    if tier != 'quick':
+        out.insert(min(len(out), 3000), B.burst_case(1500, 'D'))
     return out
 
 
